@@ -76,7 +76,23 @@ FIXED = {'where/under-not': '8fa2a67', 'where/under-or-subselect': '1a1b62e', 's
          'semi/under-not': '34967fc', 'onconst/right-full-join': '34967fc', 'onconst/under-not': '34967fc',
          'limit/aggregate': '1052add', 'api-split/aggregate-or-distinct-evaluated-twice': 'b3f5fcd',
          'api-split/offset-after-limit': 'b3f5fcd', 'where/is-null-on-null-supplying-side': '15097fa',
-         'cte-shadow/pushdown-strips-qualifier': 'a9036e5', 'cte-shadow/qualified-table-in-default-namespace': '6dae0a8'}
+         'cte-shadow/pushdown-strips-qualifier': 'a9036e5', 'limit/residual-where': 'f75cd04',
+         'limit/not-leftmost-operand': '9d1984a', 'cte-shadow/qualified-table-in-default-namespace': '6dae0a8'}
+
+
+# extra fields of open entries: which tests pin the defective plan, and the Lean theorem that delimits the class
+EXTRA = {
+    'limit/nonleft-join': dict(
+        pinned_by=['tests/test_planner/test_join_tables.py::TestPlanJoinTables::test_join_tables_plan_limit_offset',
+                   'tests/test_planner/test_join_tables.py::TestPlanJoinTables::test_join_tables_plan_order_by'],
+        sound_if='every left row has at least one join partner (the join loses no left row): '
+                 'Props/C08.lean C08_limit_inner_sound_if_total; always for LEFT joins: C08_T83_limit_left'),
+    'limit/offset-below-join': dict(
+        pinned_by=['tests/test_planner/test_join_tables.py::TestPlanJoinTables::test_join_tables_plan_limit_offset',
+                   'tests/test_planner/test_join_tables.py::TestPlanJoinTables::test_join_tables_plan_order_by'],
+        sound_if='every left row has exactly one partner (INNER join: C08_limit_inner_sound_if_one_to_one) / at most one '
+                 'partner (LEFT join: C08_offset_left_sound_if_at_most_one); counterexample C08_witness_offset_left'),
+}
 
 
 def main():
@@ -125,11 +141,12 @@ def main():
             what='%s — e.g. `%s` on %s returns %s instead of %s' % (what, q.sql, [c for c in f['contents'] if c[2]], f['actual'], f['expected']),
             **{'class': 'plan result differs from the query AND executing the same plan without its `%s` pushdowns gives the query result '
                         'AND the plan shape violates the side condition `%s` of the corresponding soundness theorem (Props/C08.lean)' % tuple(sig.split('/'))},
+            **EXTRA.get(sig, {}),
             witness=dict(query=q.to_json(), sql=q.sql, catalog=cat, contents=f['contents'], expected=f['expected'], actual=f['actual'],
                          exec_error=f['exec_error'], plan=c08.steps_text(steps))))
         print(sig, '|', q.sql, '|', [c for c in f['contents'] if c[2]], '| expected', f['expected'], 'actual', f['actual'], f['exec_error'] or '')
     # only NEW or CHANGED entries (known_findings.json already holds the merged ones)
-    key = lambda e: (e['status'], e['sig'], e.get('commit'), e['witness']['sql'])
+    key = lambda e: (e['status'], e['sig'], e.get('commit'), e['witness']['sql'], str(e.get('pinned_by')), e.get('sound_if'))
     out = [e for e in out if e['id'] not in merged or key(e) != key(merged[e['id']])]
     print('proposed:', [e['id'] for e in out])
     json.dump(out, open(os.path.join(ROOT, 'kf_proposed_C08.json'), 'w'), indent=1, ensure_ascii=False)
